@@ -15,6 +15,11 @@ of every stateful call text (`format_expr`), `numpy.sqrt` (recorded scales / sqr
 Q2 (`numpy.linalg.qr` of the recorded constraints), values of the elementwise functions at the pool values.
 Values are compared with tolerance 1e-9*max(1,|v|) (the model computes in exact rationals).
 
+Further streams: `index` (row labels: non-default pandas index, terms of several single-column factors), `session`
+(two specs, ONE materializer object, a history of calls some of which raise: `Mat.run`), `dict` / `sparse` (the
+decorator called directly), and follow-ups outside the property's domain (other output type, missing column, column
+of the other kind, hand-edited recorded categories) that are compared with the model only.
+
 Oracle (implementation only, metamorphic): replay on the training data equals the matrix; names and order
 identical on every follow-up; every follow-up row equals the output of the one-row frame of the same pool row
 (and the fitted matrix row when the pool row is a training row); pickled specs give the same; nothing raises
@@ -44,6 +49,9 @@ REQUIRED_THEOREMS = [
     "cat_lawful",
     "cat_select",
     "callDict_lawful",
+    "callCols_lawful",
+    "wrapper_replays",
+    "wrapper_fit_then_replay",
     "state_key_normalised",
     "fit_ready",
     "replay_reproduces",
@@ -53,6 +61,12 @@ REQUIRED_THEOREMS = [
     "replay_rowwise",
     "replay_state_unchanged",
     "pickle_fields",
+    "evalFactors_through_cache",
+    "materializer_call_is_pure",
+    "materializer_history",
+    "call_binding",
+    "center_delegates",
+    "live_signatures",
 ]
 TRUSTED = [
     "parameters of the model, taken from the implementation per case and not verified: the meaning of each factor "
@@ -61,33 +75,60 @@ TRUSTED = [
     "(Q2), numpy log/exp; each is a FUNCTION in the model (same input, same output), i.e. determinism of these "
     "routines is assumed",
     "pickle's byte stream, wrapt proxies and dataclass unpickling are not modelled: the model of __getstate__ works on "
-    "the instance __dict__ (which keys survive), the round trip through real pickle is exercised by the correspondence",
+    "the LIVE instance __dict__ keys reported per case (which keys survive; compared with the real __getstate__, "
+    "pickle.loads(dumps), copy.copy and copy.deepcopy), the round trips through real pickle/copy are exercised by the "
+    "correspondence",
     "float rounding is not modelled; agreement at 1e-9*max(1,|v|)",
-    "missing values (NaN rows, extrapolation='na', null categories) are property C06 and outside this model; `lag` is excluded by the property",
+    "missing values (NaN rows, extrapolation='na', null categories, na_action) are property C06 and outside this model; "
+    "`lag` is excluded by the property",
     "the set `factors` of get_model_matrix is iterated in hash order; the model evaluates factors in formula order "
-    "(the recorded state does not depend on the order: every key is fitted once, on the same data)",
+    "(the recorded state does not depend on the order: every key is fitted once, on the same data; when several factors "
+    "fail on out-of-domain data the order decides between FactorEvaluationError and FactorEncodingError, which agree() "
+    "does not distinguish for such follow-ups)",
+    "the statistics of a scale-family call on a 2-D array (numpy arrays in the recorded state; a 0-d value applies to "
+    "every column) are kept column by column in the model (TState.arr); recorded arrays whose length is not the width "
+    "of the data (numpy broadcasting) are outside the model",
+    "pandas row labels are not part of the model (a frame is a list of rows): outputs are compared by position, so any "
+    "influence of labels on values is a disagreement",
+    "C(A, levels=[…]): the nominated levels are modelled as categories declared for the column (in the code they also "
+    "override recorded categories; a fit records exactly these levels, so both coincide on every fitted spec)",
+    "bs/cr/cc/poly of a dict-valued or 2-D argument (dict of dicts, dict of arrays), sympy/polars paths, back-quoted "
+    "variable names inside stateful calls (aliases of sanitize_variable_names) are outside the model",
 ]
 ASSUMPTIONS = [
     "replay_select / replay_rowwise / replay_state_unchanged assume Ready env spec (every stateful call of every factor "
-    "finds a complete recorded state under its key — all three statistics for the scale family, a state recorded by "
-    "some fit for poly — and every categorical factor finds its recorded levels) and a non-empty recorded structure; "
-    "fit_ready proves both for every spec attached to a fitted matrix, and replay_reproduces has no such hypothesis",
+    "finds a recorded state that is ready for the shape of its argument — all three statistics for the scale family, a "
+    "state recorded by some fit for poly, a complete entry for every visible key of a dict-valued argument, one "
+    "complete state per column of a 2-D argument; the shape is computed from the recorded states alone — and every "
+    "categorical factor finds its recorded levels) and a non-empty recorded structure; fit_ready proves both for every "
+    "spec attached to a fitted matrix, and replay_reproduces has no such hypothesis",
     "a replay may raise instead (bs/cr with extrapolation='raise' on a row outside the recorded bounds): the theorems "
     "speak about replays that succeed and show that success on a frame implies success on every selection of its rows",
-    "dict-valued data (center(bs(x)): nested per-key state) are covered by callDict_lawful on the decorator's loop and "
-    "its own correspondence stream; the pipeline model reports such formulas as outside the model",
+    "materializer_call_is_pure / materializer_history model the materializer object by its factor_cache (the encoded "
+    "and encoder-state caches are keyed by the same factor expressions); with DataMismatchWarning promoted to an error "
+    "the outcome is that error or the pure result",
 ]
 RULE = (
     "pool of 4-12 rows (numeric columns over small integers / dyadics, a positive column, 1-2 categorical columns "
-    "with 2-4 levels as object dtype or declared Categorical incl. unused levels, string or int labels); training = "
-    "random selection of pool rows (80%: contains the extremes of every numeric column); formula of 1-4 terms, each an "
-    "interaction of 1-3 atoms: plain columns, I()/{} arithmetic, log/exp/np.log, center/scale/standardize (arguments, "
-    "odd spacing), poly (degrees 1-3, raw), bs (df / knots / degree / include_intercept / clip, zero, extend, raise), "
-    "cr/cs/cc (df / knots / constraints='center'), nested calls (center(bs()), scale(cr()), poly(center()), "
-    "center(center()), repeated identical calls inside one factor), C(A, contr.*), literals; x ensure_full_rank x "
-    "output pandas/numpy/sparse x cluster_by; then 3-7 follow-ups (subset, duplication, permutation, single row, "
-    "whole pool, training rows again) through 5 routes. non-trivial = a stateful transform or a categorical factor "
-    "and at least one follow-up that is not the training frame; distinct by canonical JSON"
+    "with 2-4 levels as object dtype or declared Categorical incl. unused levels, string or int labels; 30%: pandas "
+    "index shuffled / offset / strings / duplicated / negative / float); training = random selection of pool rows "
+    "(80%: contains the extremes of every numeric column); formula of 1-4 terms, each an interaction of 1-3 atoms: "
+    "plain columns, I()/{} arithmetic, log/exp/np.log, center/scale/standardize (arguments incl. given center / scale "
+    "values, odd spacing), poly (degrees 1-3, raw), bs (df / knots / degree / include_intercept / clip, zero, extend, "
+    "raise), cr/cs/cc (df / constraints='center'), nested calls (center(bs()), scale(cr()), scale(poly()) — nested "
+    "per-key / per-column state —, a mapped call of a mapped call, I() around them, poly(center()), center(center()), "
+    "repeated identical calls inside one factor), C(A, contr.*), C(A, levels=[…]), literals; x ensure_full_rank x output "
+    "pandas/numpy/sparse/default x cluster_by; then 3-7 follow-ups (subset, duplication, permutation, single row, whole "
+    "pool, training rows again) through 12 routes (spec, model_matrix(spec|mm), pickle of spec / matrix, copy / deepcopy "
+    "of spec / matrix, attr overrides), plus 0-2 follow-ups outside the domain (other / unregistered output type, "
+    "missing column, column of the other kind, hand-edited recorded categories: model only). Stream `index`: terms of "
+    "several single-column factors (two-level categorical x raw columns, A*x, A:x:y, C(A):x, x:y, A:center(x)) under "
+    "non-default row labels, follow-ups by .iloc incl. the complement of the training rows. Stream `session`: two specs "
+    "with shared factor expressions fitted on two folds, ONE materializer object, 2-4 calls of which some raise (bs "
+    "out of range, unseen level with warnings as errors, missing column), each compared with the call on a new object. "
+    "Streams `dict` / `sparse`: the decorator called directly on dicts of columns / scipy.sparse matrices. "
+    "non-trivial = a stateful transform or a categorical factor and at least one follow-up that is not the training "
+    "frame (session: both specs called); distinct by canonical JSON"
 )
 TOL = 1e-9
 ORACLE_TOL = 1e-11
@@ -131,8 +172,25 @@ def elem(fn, a):
     return {"op": "elem", "fn": fn, "a": a}
 
 
-def call(text, tr, a):
-    return {"op": "call", "text": text, "tr": tr, "a": a}
+def call(text, tr, a, fn=None, pos=(), kw=None):
+    """a stateful call node.  `fn`, `pos`, `kw`: the call AS WRITTEN (function name, positional and keyword arguments
+    after the data argument) — the model binds them against the live signature table (Gen/StatefulTable.lean) and
+    derives the transform description itself; `tr` (the generator's own resolution) is only used by the streams that
+    call a transform directly."""
+    d = {"op": "call", "text": text, "tr": tr, "a": a}
+    if fn is not None:
+        d.update(fn=fn, pos=[pylit(v) for v in pos], kw=[[k, pylit(v)] for k, v in (kw or {}).items()])
+    return d
+
+
+def pylit(v):
+    if v is None:
+        return None
+    if isinstance(v, bool):
+        return v
+    if isinstance(v, str):
+        return {"s": v}
+    return fs(Fraction(v))
 
 
 def sp(rng):
@@ -169,28 +227,51 @@ def gen_scale_call(rng, inner_src, inner):
     arg = strip_par(inner_src)
     k = rng.random()
     if k < 0.35:
-        return f"center({s1}{arg}{s2})", call(None, dict(kind="scale", center=True, scale=False, ddof="1/1"), inner)
+        return (f"center({s1}{arg}{s2})",
+                call(None, dict(kind="scale", center=True, scale=False, ddof="1/1"), inner, fn="center"))
     if k < 0.55:
-        return f"scale({s1}{arg}{s2})", call(None, dict(kind="scale", center=True, scale=True, ddof="1/1"), inner)
+        return (f"scale({s1}{arg}{s2})",
+                call(None, dict(kind="scale", center=True, scale=True, ddof="1/1"), inner, fn="scale"))
     if k < 0.65:
-        return f"scale({arg},{s1}ddof=0)", call(None, dict(kind="scale", center=True, scale=True, ddof="0/1"), inner)
-    if k < 0.75:
-        return f"scale({arg}, center=False)", call(None, dict(kind="scale", center=False, scale=True, ddof="1/1"), inner)
-    if k < 0.85:
+        return (f"scale({arg},{s1}ddof=0)",
+                call(None, dict(kind="scale", center=True, scale=True, ddof="0/1"), inner, fn="scale", kw=dict(ddof=0)))
+    if k < 0.70:
+        return (f"scale({arg}, center=False)",
+                call(None, dict(kind="scale", center=False, scale=True, ddof="1/1"), inner, fn="scale", kw=dict(center=False)))
+    if k < 0.75:  # positional arguments
+        return (f"scale({arg}, False, True, 0)",
+                call(None, dict(kind="scale", center=False, scale=True, ddof="0/1"), inner, fn="scale", pos=(False, True, 0)))
+    if k < 0.82:
         c = rng.choice([1, 2, Fraction(1, 2)])
         return (f"scale({arg}, center={float(c)!r}, scale=False)",
-                call(None, dict(kind="scale", center=fs(c), scale=False, ddof="1/1"), inner))
-    return f"standardize({s1}{arg})", call(None, dict(kind="scale", center=True, scale=True, ddof="0/1"), inner)
+                call(None, dict(kind="scale", center=fs(c), scale=False, ddof="1/1"), inner, fn="scale",
+                     kw=dict(center=c, scale=False)))
+    if k < 0.88:  # a given scale (`numpy.array(scale)`), with or without centring
+        d = rng.choice([2, 4, Fraction(1, 2)])
+        cen = rng.random() < 0.5
+        return (f"scale({arg}, center={cen}, scale={float(d)!r})",
+                call(None, dict(kind="scale", center=cen, scale=fs(d), ddof="1/1"), inner, fn="scale",
+                     kw=dict(center=cen, scale=d)))
+    if k < 0.94:
+        return (f"standardize({s1}{arg})",
+                call(None, dict(kind="scale", center=True, scale=True, ddof="0/1"), inner, fn="standardize"))
+    return (f"standardize({arg}, rescale=False, ddof=1)",
+            call(None, dict(kind="scale", center=True, scale=False, ddof="1/1"), inner, fn="standardize",
+                 kw=dict(rescale=False, ddof=1)))
 
 
 def gen_poly_call(rng, inner_src, inner):
     arg = strip_par(inner_src)
     d = rng.choice([1, 2, 2, 3])
     if rng.random() < 0.15:
-        return f"poly({arg}, {d}, raw=True)", call(None, dict(kind="poly", degree=d, raw=True), inner)
+        return (f"poly({arg}, {d}, raw=True)",
+                call(None, dict(kind="poly", degree=d, raw=True), inner, fn="poly", pos=(d,), kw=dict(raw=True)))
     if rng.random() < 0.3:
-        return f"poly({arg}, degree={d})", call(None, dict(kind="poly", degree=d, raw=False), inner)
-    return f"poly({arg},{sp(rng)}{d})", call(None, dict(kind="poly", degree=d, raw=False), inner)
+        return (f"poly({arg}, degree={d})",
+                call(None, dict(kind="poly", degree=d, raw=False), inner, fn="poly", kw=dict(degree=d)))
+    if d == 1 and rng.random() < 0.5:
+        return f"poly({arg})", call(None, dict(kind="poly", degree=1, raw=False), inner, fn="poly")
+    return f"poly({arg},{sp(rng)}{d})", call(None, dict(kind="poly", degree=d, raw=False), inner, fn="poly", pos=(d,))
 
 
 def gen_bs_call(rng, inner_src, inner):
@@ -200,17 +281,22 @@ def gen_bs_call(rng, inner_src, inner):
     mode = rng.choice(["raise", "raise", "clip", "zero", "extend"])
     tr = dict(kind="bs", df=None, knots=None, degree=degree, intercept=intercept, lower=None, upper=None, mode=mode)
     args = []
+    kw = {}
     if rng.random() < 0.8:
         tr["df"] = degree + (1 if intercept else 0) + rng.choice([0, 1, 1, 2])
         args.append(f"df={tr['df']}")
+        kw["df"] = tr["df"]
     if degree != 3:
         args.append(f"degree={degree}")
+        kw["degree"] = degree
     if intercept:
         args.append("include_intercept=True")
+        kw["include_intercept"] = True
     if mode != "raise":
         args.append(f"extrapolation='{mode}'")
+        kw["extrapolation"] = mode
     src = f"bs({arg}" + "".join(", " + a for a in args) + ")"
-    return src, call(None, tr, inner)
+    return src, call(None, tr, inner, fn="bs", kw=kw)
 
 
 def gen_cs_call(rng, inner_src, inner):
@@ -222,11 +308,14 @@ def gen_cs_call(rng, inner_src, inner):
     df = rng.choice([2, 3, 3, 4]) if not cyclic else rng.choice([2, 3, 3])
     tr = dict(kind="cs", df=df, knots=None, lower=None, upper=None, constraints=cons, cyclic=cyclic, mode=mode)
     args = [f"df={df}"]
+    kw = dict(df=df)
     if cons:
         args.append("constraints='center'")
+        kw["constraints"] = "center"
     if mode != "extend":
         args.append(f"extrapolation='{mode}'")
-    return f"{fn}({arg}, " + ", ".join(args) + ")", call(None, tr, inner)
+        kw["extrapolation"] = mode
+    return f"{fn}({arg}, " + ", ".join(args) + ")", call(None, tr, inner, fn=fn, kw=kw)
 
 
 def set_text(src, e):
@@ -263,20 +352,29 @@ def gen_numeric_atom(rng, nums, pos):
         return set_text(*gen_cs_call(rng, *gen_exact(rng, nums)))
     # nested
     k = rng.random()
-    if k < 0.2:  # scale family over an elementwise function
+    if k < 0.12:  # scale family over an elementwise function
         inner_s, inner = f"log({pos})", elem("log", col(pos))
         return set_text(*gen_scale_call(rng, inner_s, inner))
-    if k < 0.4:  # scale family over a spline (dict-valued data: nested per-key state)
-        g = rng.choice([gen_bs_call, gen_cs_call])
+    if k < 0.52:
+        # scale family over a multi-column value: a spline (a dict: the decorator maps over the keys, nested per-key
+        # state) or a polynomial basis (a 2-D array: numpy statistics along axis 0, arrays in the state); sometimes
+        # twice (the mapped call returns a plain dict / array again), sometimes wrapped in I()
+        r2 = rng.random()
+        g = gen_poly_call if r2 < 0.3 else rng.choice([gen_bs_call, gen_cs_call])
         inner_s, inner = set_text(*g(rng, *gen_exact(rng, nums, 1)))
-        return set_text(*gen_scale_call(rng, inner_s, inner))
-    if k < 0.55:  # poly of a centred / scaled variable
+        src, e = set_text(*gen_scale_call(rng, inner_s, inner))
+        if rng.random() < 0.2:
+            src, e = set_text(*gen_scale_call(rng, src, e))
+        if rng.random() < 0.15:
+            src = f"I({src})"
+        return src, e
+    if k < 0.64:  # poly of a centred / scaled variable
         inner_s, inner = set_text(*gen_scale_call(rng, *gen_exact(rng, nums, 1)))
         return set_text(*gen_poly_call(rng, inner_s, inner))
-    if k < 0.7:  # scale of scale
+    if k < 0.76:  # scale of scale
         inner_s, inner = set_text(*gen_scale_call(rng, *gen_exact(rng, nums, 1)))
         return set_text(*gen_scale_call(rng, inner_s, inner))
-    if k < 0.85:  # arithmetic of two stateful calls inside I()
+    if k < 0.88:  # arithmetic of two stateful calls inside I()
         a_s, a = set_text(*gen_scale_call(rng, *gen_exact(rng, nums, 1)))
         b_s, b = set_text(*gen_scale_call(rng, *gen_exact(rng, nums, 1)))
         op, sym = rng.choice([("add", "+"), ("sub", "-"), ("mul", "*")])
@@ -285,8 +383,8 @@ def gen_numeric_atom(rng, nums, pos):
     v = rng.choice(nums)
     fn = rng.choice(["center", "scale"])
     tr = dict(kind="scale", center=True, scale=(fn == "scale"), ddof="1/1")
-    a = call(f"{fn}({v})", tr, col(v))
-    b = call(f"{fn}( {v} )", dict(tr), col(v))
+    a = call(f"{fn}({v})", tr, col(v), fn=fn)
+    b = call(f"{fn}( {v} )", dict(tr), col(v), fn=fn)
     op, sym = rng.choice([("mul", "*"), ("add", "+")])
     return f"I({fn}({v}) {sym} {fn}( {v} ))", bin_(op, a, b)
 
@@ -294,9 +392,22 @@ def gen_numeric_atom(rng, nums, pos):
 CONTRASTS = ["treatment", "sum", "helmert", "SAS", "diff", "base"]
 
 
+def gen_levels_atom(rng, v, ci):
+    """`C(v, levels=[…])`: the nominated levels are the column's levels in another order, sometimes with one more"""
+    lv = list(ci["levels"])
+    rng.shuffle(lv)
+    if rng.random() < 0.3:
+        lv.insert(rng.randrange(len(lv) + 1), "zz" if isinstance(lv[0], str) else 99)
+    cn = rng.choice([None, None, "sum", "treatment"])
+    src = f"C({v}, " + (f"contr.{cn}, " if cn else "") + f"levels={lv!r})"
+    return src, dict(k="cat", var=v, contrast=dict(c=cn or "treatment", base=None), viaC=True, levels=[lab(x) for x in lv])
+
+
 def gen_cat_atom(rng, cats, cinfo):
     v = rng.choice(cats)
     r = rng.random()
+    if r < 0.08:
+        return gen_levels_atom(rng, v, cinfo[v])
     if r < 0.5:
         return v, dict(k="cat", var=v, contrast=dict(c="treatment", base=None), viaC=False)
     if r < 0.6:
@@ -370,6 +481,13 @@ def gen_pool(rng, tier):
     return n, num, cat, train
 
 
+# how the spec reaches the follow-up call; the second list goes through ModelSpec.__getstate__ (pickle, copy.copy and
+# copy.deepcopy of a dataclass instance all use __reduce_ex__ -> __getstate__ and `__dict__.update(state)`)
+ROUTES = ["spec", "spec", "sugar", "mm", "pickle", "pickle", "pickle_mm", "copy", "deepcopy", "copy_mm", "deepcopy_mm",
+          "overrides"]
+GETSTATE_ROUTES = ("pickle", "pickle_mm", "copy", "deepcopy", "deepcopy_mm")
+
+
 def gen_followups(rng, n, train):
     fus = [dict(rows=list(train), route="spec")]
     kinds = ["subset", "dup", "perm", "single", "pool", "train", "single", "subset"]
@@ -388,8 +506,47 @@ def gen_followups(rng, n, train):
             rows = list(range(n))
         else:
             rows = list(train)
-        fus.append(dict(rows=rows, route=rng.choice(["spec", "spec", "sugar", "mm", "pickle", "pickle", "pickle_mm"])))
+        fus.append(dict(rows=rows, route=rng.choice(ROUTES)))
     return fus
+
+
+def add_option_followups(rng, case):
+    """follow-ups OUTSIDE the property's domain, for the error / enforcement branches of the replay mechanism:
+    another output type (`get_model_matrix(data, output=…)`, also an unregistered one), data lacking a column, a column
+    of the other kind (strings for numbers, numbers for categories: the kind check against `encoder_state`), a spec
+    whose recorded categories were edited by hand (`_enforce_structure`: too many / too few / imputed columns)."""
+    n, train = case["n"], case["train"]
+    cols = list(case["num"]) + list(case["cat"])
+    cat_srcs = [s_ for s_, sem in case["atoms"].items() if sem.get("k") == "cat"]
+    for _ in range(rng.choice([0, 0, 1, 1, 2])):
+        rows = sorted(rng.sample(range(n), rng.randint(1, n))) if rng.random() < 0.7 else list(train)
+        fu = dict(rows=rows, route=rng.choice(["spec", "spec", "pickle", "copy", "deepcopy"]))
+        k = rng.random()
+        if k < 0.3:
+            fu["output"] = rng.choice(["numpy", "sparse", "pandas", "bogus"])
+        elif k < 0.5:
+            fu["drop"] = rng.choice(cols)
+        elif k < 0.7:
+            fu["swap"] = rng.choice(cols)
+        elif cat_srcs:
+            src_ = rng.choice(cat_srcs)
+            # an explicit reference level must stay among the edited categories: the model computes both rank variants
+            # of a C(...) factor eagerly, the code only the one the recorded structure asks for, so an error of the
+            # unused variant (base not in levels) would be reported by the model alone
+            explicit_base = (case["atoms"][src_].get("contrast") or {}).get("base") is not None
+            if case["atoms"][src_].get("levels"):
+                continue  # nominated levels override recorded categories in the code (the model reads them as declared)
+            fu["edit"] = dict(src=src_, op=rng.choice(["reverse", "add"] if explicit_base else
+                                                      ["drop_last", "drop_first", "keep_one", "reverse", "add"]))
+        else:
+            fu["output"] = rng.choice(["numpy", "sparse", "bogus"])
+        case["followups"].append(fu)
+    return case
+
+
+def in_domain(fu):
+    """does the property speak about this follow-up? (a valid output override is in; the rest is not)"""
+    return not (fu.get("drop") or fu.get("swap") or fu.get("edit") or fu.get("output") == "bogus")
 
 
 def gen_case(rng, tier):
@@ -426,6 +583,270 @@ def gen_case(rng, tier):
     )
 
 
+INDEX_KINDS = ["shuffled", "offset", "str", "dup", "strdup", "neg", "float", "default"]
+
+
+def gen_index(rng, n):
+    """row labels of the pool: anything but the default 0..n-1 most of the time"""
+    k = rng.choice(INDEX_KINDS)
+    if k == "shuffled":
+        lab = list(range(n))
+        rng.shuffle(lab)
+    elif k == "offset":
+        o = rng.choice([1, 7, 100])
+        lab = [o + 2 * i for i in range(n)]
+    elif k == "str":
+        lab = [f"r{i}" for i in range(n)]
+        rng.shuffle(lab)
+    elif k == "dup":  # repeated integer labels, among them labels that are valid positions
+        lab = [rng.randrange(max(2, n // 2)) for _ in range(n)]
+    elif k == "strdup":
+        lab = [rng.choice(["a", "b", "c"]) for _ in range(n)]
+    elif k == "neg":
+        lab = [-(i + 1) for i in range(n)]
+    elif k == "float":
+        lab = [i + 0.5 for i in range(n)]
+    else:
+        return None
+    return lab
+
+
+def gen_index_case(rng, tier):
+    """REPLAY UNDER ARBITRARY ROW LABELS.  Terms made of several single-column factors (a categorical reduced to one
+    column times raw data columns: `A*x`, `A:x:y`, `C(A):x`, `x:y`, a centred column times a categorical), fitted on a
+    frame whose pandas index is not 0..n-1, replayed on reorderings / subsets / duplications / the complement of the
+    training rows made with `.iloc` (labels are carried along, duplicated, reordered).  Output rows are compared BY
+    POSITION: row labels must never influence values."""
+    n, num, cat, train = gen_pool(rng, tier)
+    # categorical columns with exactly two levels in the training rows (one column once the rank is reduced)
+    for name, ci in cat.items():
+        if rng.random() < 0.8:
+            ci["levels"] = ci["levels"][:2]
+            ci["codes"] = [c % 2 for c in ci["codes"]]
+            if len({ci["codes"][i] for i in train}) < 2:
+                ci["codes"][train[0]], ci["codes"][train[-1]] = 0, 1
+            ci["train_levels"] = list(ci["levels"]) if ci["declared"] else \
+                [ci["levels"][k] for k in sorted({ci["codes"][i] for i in train})]
+    cats = sorted(cat)
+    atoms = {}
+
+    def raw():
+        v = rng.choice(["x", "y", "p"])
+        atoms[v] = dict(k="num", e=col(v))
+        return v
+
+    def catf():
+        v = rng.choice(cats)
+        r = rng.random()
+        if r < 0.15:
+            src, sem = gen_levels_atom(rng, v, cat[v])
+        elif r < 0.6:
+            src, sem = v, dict(k="cat", var=v, contrast=dict(c="treatment", base=None), viaC=False)
+        elif r < 0.8:
+            src, sem = f"C({v})", dict(k="cat", var=v, contrast=dict(c="treatment", base=None), viaC=True)
+        else:
+            cn = rng.choice(["sum", "treatment", "SAS"])
+            src, sem = f"C({v}, contr.{cn})", dict(k="cat", var=v, contrast=dict(c=cn, base=None), viaC=True)
+        atoms[src] = sem
+        return src
+
+    def stateful():
+        v = rng.choice(["x", "y"])
+        src, e = set_text(*gen_scale_call(rng, v, col(v)))
+        atoms[src] = dict(k="num", e=e)
+        return src
+
+    terms = []
+    for _ in range(rng.randint(1, 3)):
+        shape = rng.choice(["cat*raw", "cat*raw", "cat:raw:raw", "raw:raw", "cat:stateful", "cat:cat:raw", "raw:stateful"])
+        if shape == "cat*raw":
+            a, z = catf(), raw()
+            t = rng.choice([f"{a}*{z}", f"{a}:{z}", f"{a} + {a}:{z}", f"{z}*{a}"])
+        elif shape == "cat:raw:raw":
+            t = ":".join([catf(), raw(), raw()])
+        elif shape == "raw:raw":
+            t = f"{raw()}:{raw()}"
+        elif shape == "cat:stateful":
+            t = rng.choice(["{0}:{1}", "{0}*{1}"]).format(catf(), stateful())
+        elif shape == "cat:cat:raw":
+            t = ":".join([catf(), catf(), raw()])
+        else:
+            t = f"{raw()}:{stateful()}"
+        if t not in terms:
+            terms.append(t)
+    if rng.random() < 0.3:  # something multi-column next to them
+        s_, e = gen_numeric_atom(rng, ["x", "y"], "p")
+        atoms[s_] = dict(k="num", e=e)
+        terms.append(s_)
+    fus = gen_followups(rng, n, train)
+    rest = [i for i in range(n) if i not in train]
+    if rest:
+        fus.append(dict(rows=rest, route=rng.choice(["spec", "sugar", "pickle"])))  # the other side of a train/test split
+    fus.append(dict(rows=list(reversed(range(n))), route="spec"))
+    return dict(
+        kind="replay", n=n, num=num, cat={k: dict(v) for k, v in cat.items()}, train=train,
+        formula=rng.choice(["", "", "", "0 + "]) + " + ".join(terms), atoms=atoms,
+        efr=rng.random() < 0.85, output=rng.choice(["pandas", "pandas", "pandas", "numpy", "sparse"]),
+        cluster=rng.random() < 0.1, followups=fus, index=gen_index(rng, n),
+    )
+
+
+def gen_session_case(rng, tier):
+    """FAULT-THEN-REUSE: two specs with shared factor expressions but different recorded state (fitted on two folds
+    of the pool), ONE materializer object for the follow-up data, a history of 2-4 `get_model_matrix(spec_i)` calls on
+    it, some of which raise after some (or all) factors have been evaluated: a value outside the range recorded by a
+    `bs(..)` with extrapolation='raise' (during factor evaluation), a level the fold of that spec has not seen with
+    DataMismatchWarning promoted to an error (during encoding, after every factor has been evaluated), a column the
+    data lack.  Every call must behave like the same call on a new object."""
+    n, num, cat, _ = gen_pool(rng, tier)
+    for ci in cat.values():
+        if len(ci["levels"]) < 3 and rng.random() < 0.7:  # room for a level that one fold does not see
+            pool_ = next(pl for pl in LEVEL_POOLS if ci["levels"][0] in pl)
+            ci["levels"] = list(ci["levels"]) + [x for x in pool_ if x not in ci["levels"]][:1]
+            for i in range(n):
+                if rng.random() < 0.3:
+                    ci["codes"][i] = len(ci["levels"]) - 1
+    # fold 1 (wide): the extremes of every numeric column and every level; fold 0 (narrow): a subset without some of them
+    wide = list(range(n))
+    if rng.random() < 0.5 and n > 5:
+        drop = rng.randrange(n)
+        wide = [i for i in wide if i != drop]
+    for name in num:
+        vals = [Fraction(v) for v in num[name]]
+        for i in (vals.index(min(vals)), vals.index(max(vals))):
+            if i not in wide:
+                wide.append(i)
+    wide = sorted(wide)
+    for ci in cat.values():
+        ci["declared"] = ci["declared"] and rng.random() < 0.5
+        ci["train_levels"] = None  # per fold
+    cv = rng.choice(sorted(cat))  # the categorical column of the formulas
+    yv = [Fraction(v) for v in num["y"]]
+    order = sorted(range(n), key=lambda i: yv[i])
+    k = rng.randint(4, max(4, n - 2))
+    lo = rng.randint(0, n - k)
+    mode = rng.choice(["range", "range", "level", "level", "random", "same"])
+    narrow = sorted(order[lo: lo + k])  # an interval of y: rows outside it are out of range for a recorded bs(y)
+    if mode == "level":
+        # every numeric extreme stays in the fold, one level of one categorical column does not: the other rows are
+        # in range but carry a level this fold has not seen
+        name = cv
+        ci = cat[name]
+        nl = len(ci["levels"])
+        if nl >= 3:
+            L = rng.randrange(nl)
+            keep = [j for j in range(nl) if j != L]
+            ext = set()
+            for nm in num:
+                vals = [Fraction(v) for v in num[nm]]
+                ext |= {vals.index(min(vals)), vals.index(max(vals))}
+            for i in range(n):
+                if i in ext and ci["codes"][i] == L:
+                    ci["codes"][i] = rng.choice(keep)
+            if not any(cd == L for cd in ci["codes"]):
+                ci["codes"][rng.choice([i for i in range(n) if i not in ext] or [0])] = L
+            for j in keep:  # both remaining levels occur
+                if j not in ci["codes"]:
+                    cand = [i for i in range(n) if ci["codes"][i] != L]
+                    ci["codes"][rng.choice(cand)] = j
+            ci["declared"] = False
+            narrow = [i for i in range(n) if ci["codes"][i] != L]
+            wide = list(range(n))
+    elif mode == "random":
+        narrow = sorted(rng.sample(range(n), k))
+    elif mode == "same":
+        narrow = list(wide)
+    folds = [narrow, wide]
+    if rng.random() < 0.25:
+        folds.reverse()
+    # atoms shared by the two formulas
+    atoms = {}
+    pool_atoms = []
+    v = rng.choice(["x", "y"])
+    src, e = set_text(*gen_scale_call(rng, v, col(v)))
+    pool_atoms.append((src, dict(k="num", e=e)))
+    deg = rng.choice([1, 2, 3])
+    dfv = deg + rng.choice([0, 1, 2])
+    bs_src = f"bs(y, df={dfv}" + (f", degree={deg}" if deg != 3 else "") + ")"
+    pool_atoms.append((bs_src, dict(k="num", e=call(bs_src, dict(kind="bs", df=dfv, knots=None, degree=deg, intercept=False,
+                                                                 lower=None, upper=None, mode="raise"), col("y"), fn="bs",
+                                                    kw=dict(df=dfv, **({"degree": deg} if deg != 3 else {}))))))
+    if rng.random() < 0.6:
+        pool_atoms.append((cv, dict(k="cat", var=cv, contrast=dict(c="treatment", base=None), viaC=False)))
+    else:
+        cn = rng.choice(["sum", "treatment", "helmert"])
+        con = dict(c=cn, base=None)
+        if cn == "helmert":
+            con.update(reverse=True, scale=False)
+        pool_atoms.append((f"C({cv}, contr.{cn})", dict(k="cat", var=cv, contrast=con, viaC=True)))
+    extra = rng.choice(["poly", "raw", "scale2", "nested", None])
+    if extra == "poly":
+        ps, pe = set_text(*gen_poly_call(rng, "x", col("x")))
+        pool_atoms.append((ps, dict(k="num", e=pe)))
+    elif extra == "raw":
+        pool_atoms.append(("p", dict(k="num", e=col("p"))))
+    elif extra == "scale2":
+        ss, se = set_text(*gen_scale_call(rng, "p", col("p")))
+        pool_atoms.append((ss, dict(k="num", e=se)))
+    elif extra == "nested":
+        ns, ne = set_text(*gen_scale_call(rng, bs_src, pool_atoms[1][1]["e"]))
+        pool_atoms.append((ns, dict(k="num", e=ne)))
+    fits = []
+    for j in range(2):
+        if j == 0 or rng.random() < 0.5:
+            chosen = list(pool_atoms)
+        else:
+            chosen = [pool_atoms[0]] + [a for a in pool_atoms[1:] if rng.random() < 0.6]
+        rng.shuffle(chosen)
+        terms = []
+        used = []
+        i = 0
+        while i < len(chosen):
+            if i + 1 < len(chosen) and rng.random() < 0.25:
+                terms.append(chosen[i][0] + ":" + chosen[i + 1][0])
+                used += [chosen[i], chosen[i + 1]]
+                i += 2
+            else:
+                terms.append(chosen[i][0])
+                used.append(chosen[i])
+                i += 1
+        for a, sem in used:
+            atoms[a] = sem
+        fits.append(dict(formula=rng.choice(["", "", "0 + "]) + " + ".join(terms), train=folds[j],
+                         efr=rng.random() < 0.8, output=rng.choice(["pandas", "pandas", "numpy", "sparse"]),
+                         cluster=False))
+    if rng.random() < 0.6:
+        fits[1]["output"] = fits[0]["output"]
+    rows = sorted(rng.sample(range(n), rng.randint(2, n))) if rng.random() < 0.6 else \
+        [rng.randrange(n) for _ in range(rng.randint(2, n + 1))]
+    ncalls = rng.randint(2, 4)
+    calls = [dict(spec=rng.randrange(2), strict=rng.random() < 0.5) for _ in range(ncalls)]
+    if all(cl["spec"] == calls[0]["spec"] for cl in calls):
+        calls[-1]["spec"] = 1 - calls[0]["spec"]
+    if mode == "level" and rng.random() < 0.8:
+        # the spec of the fold that lacks a level, with warnings as errors, somewhere before a call of the other spec
+        nidx = folds.index(narrow) if narrow in folds else 0
+        pos = rng.randrange(len(calls) - 1)
+        calls[pos] = dict(spec=nidx, strict=True)
+        calls[-1] = dict(spec=1 - nidx, strict=calls[-1]["strict"])
+    return dict(kind="session", n=n, num=num, cat={k2: dict(v2) for k2, v2 in cat.items()}, atoms=atoms, fits=fits,
+                rows=rows, calls=calls, via=rng.choice(["get_materializer", "class"]),
+                dropcol=(rng.choice(["p", "x"]) if rng.random() < 0.08 else None),
+                index=gen_index(rng, n) if rng.random() < 0.4 else None)
+
+
+def gen_sparse_case(rng):
+    """a scale-family transform called on a scipy.sparse matrix (its `singledispatch` registration): one column is
+    scaled like the dense vector, with the same recorded state; any other width raises ValueError"""
+    n = rng.randint(2, 8)
+    ncols = rng.choice([1, 1, 1, 2, 3])
+    cols = [[fs(Fraction(rng.randint(-12, 20), rng.choice([1, 1, 2, 4])) if rng.random() < 0.7 else 0) for _ in range(n)]
+            for _ in range(ncols)]
+    _, e = gen_scale_call(rng, "x", col("x"))
+    fus = [[rng.randrange(n) for _ in range(rng.randint(1, n + 2))] for _ in range(rng.randint(1, 3))]
+    return dict(kind="sparse", n=n, cols=cols, tr=e["tr"], followups=fus)
+
+
 def gen_dict_case(rng):
     """the decorator's loop over dict-valued data, called directly (`center` / `scale` on a dict of columns)"""
     n = rng.randint(2, 8)
@@ -442,28 +863,49 @@ def gen_dict_case(rng):
 
 
 def cases(rng, tier):
-    n = {"quick": 260, "thorough": 4000, "search": 120}[tier]
+    n = {"quick": 200, "thorough": 4000, "search": 120}[tier]
     for _ in range(n):
-        yield gen_case(rng, tier)
+        c = gen_case(rng, tier)
+        if rng.random() < 0.3:
+            c["index"] = gen_index(rng, c["n"])
+        if rng.random() < 0.1:
+            c["output"] = None  # the materializer's default output (`_prepare_model_specs`)
+        yield add_option_followups(rng, c)
+    for _ in range(max(40, n // 5)):
+        yield add_option_followups(rng, gen_index_case(rng, tier))
+    for _ in range(max(40, n // 5)):
+        yield gen_session_case(rng, tier)
     for _ in range(max(20, n // 6)):
         yield gen_dict_case(rng)
+    for _ in range(max(12, n // 12)):
+        yield gen_sparse_case(rng)
 
 
 def describe(c):
     if c["kind"] == "dict":
         return "dict-valued data"
+    if c["kind"] == "sparse":
+        return f"sparse matrix, {len(c['cols'])} column(s)"
+    if c["kind"] == "session":
+        return "session:" + "".join(("S" if cl["strict"] else "s") + str(cl["spec"]) for cl in c["calls"])
     f = c["formula"]
     import re
 
     tags = [t for t in ("center", "scale", "standardize", "poly", "bs(", "cr(", "cs(", "cc(", "C(", "log", "exp") if t in f]
     if re.search(r"(center|scale|standardize)\(\s*(bs|cr|cs|cc)\(", f):
-        tags.append("DICT-ARG(model: outside)")
+        tags.append("NESTED-DICT")
+    if re.search(r"(center|scale|standardize)\(\s*poly\(", f):
+        tags.append("NESTED-ARRAY")
     return ",".join(tags)[:80] or "plain"
 
 
 def nontrivial(c):
     if c["kind"] == "dict":
         return len(c["cols"]) > 1
+    if c["kind"] == "sparse":
+        return True
+    if c["kind"] == "session":
+        return len({cl["spec"] for cl in c["calls"]}) > 1
     stateful = any(t in c["formula"] for t in ("center", "scale", "standardize", "poly", "bs(", "cr(", "cs(", "cc(")) or bool(c["cat"])
     return stateful and any(fu["rows"] != c["train"] for fu in c["followups"])
 
@@ -481,7 +923,10 @@ def make_pool(c):
             cols[k] = pandas.Categorical(vals, categories=ci["levels"])
         else:
             cols[k] = pandas.Series(vals, dtype=object)
-    return pandas.DataFrame(cols)
+    df = pandas.DataFrame(cols)
+    if c.get("index") is not None:
+        df.index = pandas.Index(c["index"])  # row labels: never an input of the model (rows are positions)
+    return df
 
 
 def mat_obs(mm, output):
@@ -511,10 +956,26 @@ def _scale_state(st):
     return out
 
 
+def _field_cols(st, k):
+    """one statistic of a scale-family state as a list per column (None: Python None; "absent"; a float: 0-d)"""
+    if k not in st:
+        return "absent"
+    if st[k] is None:
+        return None
+    a = numpy.asarray(st[k], dtype=float)
+    return float(a.item()) if a.ndim == 0 else [float(v) for v in a.ravel()]
+
+
+def _is_arr_state(st):
+    return any(isinstance(st.get(k), numpy.ndarray) and numpy.asarray(st[k]).ndim == 1 for k in ("center", "scale"))
+
+
 def state_obs(st):
     """canonical form of one entry of transform_state"""
     if not isinstance(st, dict):
         return dict(kind="?")
+    if ("ddof" in st or "center" in st or "scale" in st) and _is_arr_state(st):
+        return dict(kind="arr", fields={k: _field_cols(st, k) for k in ("ddof", "center", "scale")})
     if "alpha" in st or "norms2" in st:
         al, n2 = st.get("alpha") or {}, st.get("norms2") or {}
         return dict(kind="poly", alpha=[float(al[k]) for k in sorted(al)], norms2=[float(n2[k]) for k in sorted(n2)])
@@ -557,6 +1018,8 @@ def _roots_of(st, out):
         a = numpy.asarray(st["scale"], dtype=float)
         if a.ndim == 0:
             out.append(float(a))
+        elif a.ndim == 1:
+            out.extend(float(v) for v in a)
     for v in st.values():
         if isinstance(v, dict) and ("scale" in v or "center" in v):
             _roots_of(v, out)
@@ -639,6 +1102,86 @@ def elem_table(c):
     return tab
 
 
+def route_spec(route, mm, spec, cache):
+    """the spec object a route hands to the follow-up call"""
+    if route in ("spec", "sugar", "mm", "overrides"):
+        return spec
+    if route == "pickle":
+        if "spec" not in cache:
+            cache["spec"] = pickle.loads(pickle.dumps(spec))
+        return cache["spec"]
+    if route == "pickle_mm":
+        if "mm" not in cache:
+            cache["mm"] = pickle.loads(pickle.dumps(mm))
+        return cache["mm"].model_spec
+    if route == "copy":
+        _ = spec.column_names
+        return copy.copy(spec)
+    if route == "deepcopy":
+        _ = spec.column_names
+        return copy.deepcopy(spec)
+    if route == "copy_mm":
+        return copy.copy(mm).model_spec
+    if route == "deepcopy_mm":
+        return copy.deepcopy(mm).model_spec
+    raise ValueError(route)
+
+
+def apply_edit(sp, expr, op):
+    """a hand-edited spec: the recorded categories of one categorical factor changed; returns (spec, new categories)"""
+    st = dict(sp.encoder_state)
+    kind, es = st[expr]
+    cats = list(es["categories"])
+    if op == "drop_last":
+        new = cats[:-1]
+    elif op == "drop_first":
+        new = cats[1:]
+    elif op == "keep_one":
+        new = cats[:1]
+    elif op == "reverse":
+        new = cats[::-1]
+    else:  # add a level
+        new = cats + (["zzz"] if all(isinstance(x, str) for x in cats) else [max(cats) + 1])
+    st[expr] = (kind, dict(es, categories=new))
+    return sp.update(encoder_state=st), new
+
+
+def followup_frame(c, fu, pool):
+    df = pool.iloc[fu["rows"]]
+    if fu.get("drop"):
+        df = df.drop(columns=[fu["drop"]])
+    if fu.get("swap"):
+        col_ = fu["swap"]
+        df = df.copy()
+        if col_ in c["num"]:  # strings where numbers were
+            df[col_] = pandas.Series([f"s{i}" for i in range(len(df))], index=df.index, dtype=object)
+        else:  # numbers where categories were
+            df[col_] = numpy.arange(len(df), dtype=float) + 100.5
+    return df
+
+
+def run_followup(c, fu, mm, spec, pool, cache, info):
+    from formulaic import model_matrix
+
+    df = followup_frame(c, fu, pool)
+    route = fu["route"]
+    plain = not (fu.get("edit") or fu.get("output"))
+    if plain and route == "sugar":
+        return model_matrix(spec, df)
+    if plain and route == "mm":
+        return model_matrix(mm, df)
+    if plain and route == "overrides":
+        return spec.get_model_matrix(df, output=spec.output)
+    sp = route_spec(route, mm, spec, cache)
+    if fu.get("edit"):
+        sp, new = apply_edit(sp, info["exprs"][fu["edit"]["src"]], fu["edit"]["op"])
+        info["edits"].append([lab(x) for x in new])
+    else:
+        info["edits"].append(None)
+    kw = {"output": fu["output"]} if fu.get("output") else {}
+    return sp.get_model_matrix(df, **kw)
+
+
 def replay_route(route, mm, spec, df, cache):
     from formulaic import model_matrix
 
@@ -656,6 +1199,18 @@ def replay_route(route, mm, spec, df, cache):
         if "mm" not in cache:
             cache["mm"] = pickle.loads(pickle.dumps(mm))
         return cache["mm"].model_spec.get_model_matrix(df)
+    if route == "copy":
+        _ = spec.column_names  # a cached property in the instance __dict__: must not travel with the copy
+        return copy.copy(spec).get_model_matrix(df)
+    if route == "deepcopy":
+        _ = spec.column_names
+        return copy.deepcopy(spec).get_model_matrix(df)
+    if route == "copy_mm":  # ModelMatrix.__copy__: the wrapped matrix is copied, the spec is shared
+        return copy.copy(mm).model_spec.get_model_matrix(df)
+    if route == "deepcopy_mm":  # ModelMatrix.__deepcopy__: deep copy of the spec
+        return copy.deepcopy(mm).model_spec.get_model_matrix(df)
+    if route == "overrides":  # get_model_matrix(**attr_overrides): spec.update(...) first (dataclasses.replace)
+        return spec.get_model_matrix(df, output=spec.output)
     raise ValueError(route)
 
 
@@ -703,9 +1258,130 @@ def impl_dict(c):
     return out
 
 
+def _fit_obs(c, atoms, fit, pool):
+    """fit one formula; returns (mm | None, observables incl. the parser / normaliser parameters of the atoms used)"""
+    from formulaic import Formula, model_matrix
+    from formulaic.utils.code import format_expr
+
+    out = {}
+    try:
+        out["terms"] = [[dict(x=f.expr, m=f.eval_method.value) for f in t.factors] for t in Formula(fit["formula"])]
+    except Exception as e:
+        return None, dict(error="formula:" + type(e).__name__, msg=str(e)[:200])
+    try:
+        with numpy.errstate(all="ignore"):
+            mm = model_matrix(fit["formula"], pool.iloc[fit["train"]], ensure_full_rank=fit["efr"], output=fit["output"],
+                              cluster_by="numerical_factors" if fit["cluster"] else "none")
+    except Exception as e:
+        return None, dict(out, fit=dict(error=type(e).__name__, msg=str(e)[:300]))
+    spec = mm.model_spec
+    out["terms"] = [[dict(x=f.expr, m=f.eval_method.value) for f in t.factors] for t in spec.formula]
+    fo = mat_obs(mm, fit["output"])
+    fo["spec"] = spec_obs(spec)
+    out["fit"] = fo
+    roots = []
+    for st in spec.transform_state.values():
+        _roots_of(st, roots)
+    out["roots"] = [ffs(r) for r in roots if math.isfinite(r)]
+    out["params"] = {k: node_params(st) for k, st in spec.transform_state.items()}
+    return mm, out
+
+
+def impl_session(c):
+    from formulaic import Formula
+    from formulaic.errors import DataMismatchWarning
+    from formulaic.materializers import PandasMaterializer
+    from formulaic.utils.code import format_expr
+
+    warnings.simplefilter("ignore")
+    pool = make_pool(c)
+    out = {}
+    exprs = {}
+    for src in c["atoms"]:
+        try:
+            exprs[src] = list(Formula("0 + " + src))[0].factors[0].expr
+        except Exception as e:
+            return dict(error="atom:" + type(e).__name__, msg=str(e)[:200])
+    out["exprs"] = exprs
+    calls_ = []
+    for sem in c["atoms"].values():
+        if sem.get("k") == "num":
+            walk_calls(sem["e"], calls_)
+    out["norm"] = sorted({(e["text"], format_expr(e["text"])) for e in calls_})
+    out["elem"] = elem_table(c)
+    mms, fits = [], []
+    for fit in c["fits"]:
+        mm, fo = _fit_obs(c, c["atoms"], fit, pool)
+        mms.append(mm)
+        fits.append(fo)
+    out["fits"] = fits
+    if any(m is None for m in mms):
+        return out
+    data = pool.iloc[c["rows"]]
+    if c.get("dropcol"):
+        data = data.drop(columns=[c["dropcol"]])
+    specs = [m.model_spec for m in mms]
+    before = [repr(spec_obs(sp)) for sp in specs]
+
+    def one(fn, cl):
+        with warnings.catch_warnings():
+            warnings.simplefilter("ignore")
+            if cl["strict"]:
+                warnings.simplefilter("error", DataMismatchWarning)
+            try:
+                with numpy.errstate(all="ignore"):
+                    m2 = fn()
+                o2 = mat_obs(m2, c["fits"][cl["spec"]]["output"])
+                o2["spec"] = spec_obs(m2.model_spec)
+                return o2
+            except BaseException as e:  # a Warning raised as an error is an Exception as well
+                if isinstance(e, (KeyboardInterrupt, SystemExit)) or type(e).__name__ == "CaseTimeout":
+                    raise
+                return dict(error=type(e).__name__, msg=str(e)[:200])
+
+    mat = specs[0].get_materializer(data) if c["via"] == "get_materializer" else PandasMaterializer(data)
+    hist, fresh = [], []
+    for cl in c["calls"]:
+        sp = specs[cl["spec"]]
+        hist.append(one(lambda: mat.get_model_matrix(sp), cl))
+        fresh.append(one(lambda: sp.get_model_matrix(data), cl))
+    out["calls"] = hist
+    out["fresh"] = fresh
+    out["state_unchanged"] = [repr(spec_obs(sp)) == b for sp, b in zip(specs, before)]
+    return out
+
+
+def impl_sparse(c):
+    import scipy.sparse as spsparse
+
+    f, kw = _tr_call(c["tr"])
+    dense = numpy.array([[fl(v) for v in colv] for colv in c["cols"]], dtype=float).T
+    st = {}
+
+    def one(rows, state):
+        try:
+            with numpy.errstate(all="ignore"):
+                r = f(spsparse.csc_matrix(dense[rows]), _state=state, **kw)
+            a = numpy.asarray(r, dtype=float)
+            return dict(res=[float(v) for v in a.ravel()], ndim=int(a.ndim), state=_scale_state(state))
+        except Exception as e:
+            return dict(error=type(e).__name__, msg=str(e)[:120], state=_scale_state(state))
+
+    out = dict(fit=one(list(range(c["n"])), st))
+    roots = []
+    _roots_of(st, roots)
+    out["roots"] = [ffs(r) for r in roots if math.isfinite(r)]
+    out["replays"] = [one(rows, copy.deepcopy(st)) for rows in c["followups"]]
+    return out
+
+
 def impl(c):
     if c["kind"] == "dict":
         return impl_dict(c)
+    if c["kind"] == "sparse":
+        return impl_sparse(c)
+    if c["kind"] == "session":
+        return impl_session(c)
     from formulaic import Formula, model_matrix
     from formulaic.utils.code import format_expr
 
@@ -739,7 +1415,7 @@ def impl(c):
         return dict(out, fit=dict(error=type(e).__name__, msg=str(e)[:300]))
     spec = mm.model_spec
     out["terms"] = [[dict(x=f.expr, m=f.eval_method.value) for f in t.factors] for t in spec.formula]
-    fit = mat_obs(mm, c["output"])
+    fit = mat_obs(mm, c["output"] or "pandas")
     fit["spec"] = spec_obs(spec)
     out["fit"] = fit
     roots = []
@@ -754,30 +1430,37 @@ def impl(c):
     for i in range(c["n"]):
         try:
             with numpy.errstate(all="ignore"):
-                r = mat_obs(spec.get_model_matrix(pool.iloc[[i]]), c["output"])
+                r = mat_obs(spec.get_model_matrix(pool.iloc[[i]]), c["output"] or "pandas")
             ref.append(dict(names=r["names"], row=r["rows"][0] if r["rows"] else None, nrows=r["shape"][0]))
         except Exception as e:
             ref.append(dict(error=type(e).__name__))
     out["ref"] = ref
     cache = {}
     reps = []
+    info = dict(exprs=exprs, edits=[])
     for fu in c["followups"]:
-        df = pool.iloc[fu["rows"]]
+        n_ed = len(info["edits"])
         try:
             with numpy.errstate(all="ignore"):
-                m2 = replay_route(fu["route"], mm, spec, df, cache)
-            o2 = mat_obs(m2, c["output"])
+                m2 = run_followup(c, fu, mm, spec, pool, cache, info)
+            o2 = mat_obs(m2, fu.get("output") or c["output"] or "pandas")
             o2["spec_same"] = repr(spec_obs(m2.model_spec)) == before
             reps.append(o2)
         except Exception as e:
             reps.append(dict(error=type(e).__name__, msg=str(e)[:200]))
+        if len(info["edits"]) == n_ed:
+            info["edits"].append(None)
     out["replays"] = reps
+    out["edits"] = info["edits"]
     out["state_unchanged"] = repr(spec_obs(spec)) == before
     # which attributes of the instance survive pickling
     try:
         _ = spec.column_names, spec.column_indices, spec.term_indices
         restored = pickle.loads(pickle.dumps(spec))
-        out["pickle_keys"] = dict(before=sorted(spec.__dict__), after=sorted(restored.__dict__),
+        out["pickle_keys"] = dict(before=list(spec.__dict__), after=sorted(restored.__dict__),
+                                  after_copy=sorted(copy.copy(spec).__dict__),
+                                  after_deepcopy=sorted(copy.deepcopy(spec).__dict__),
+                                  getstate=list(spec.__getstate__()),
                                   fields=sorted(type(spec).__dataclass_fields__))
     except Exception as e:
         out["pickle_keys"] = dict(error=type(e).__name__ + ": " + str(e)[:100])
@@ -815,7 +1498,71 @@ def fill_params(e, o):
     return rec(e)
 
 
+def _env_json(c, o, fo):
+    """factor semantics with the external-routine results of ONE fit attached to the call nodes"""
+    by_expr = {}
+    view = dict(norm=o.get("norm", []), params=fo.get("params", {}))
+    for src, sem in c["atoms"].items():
+        s2 = dict(sem)
+        if s2.get("k") == "num":
+            s2["e"] = fill_params(s2["e"], view)
+        by_expr[o["exprs"][src]] = s2
+    for t in fo.get("terms", []):
+        for f in t:
+            if f["m"] == "literal":
+                by_expr.setdefault(f["x"], dict(k="lit", v=fs(Fraction(f["x"]))))
+    return [dict(expr=expr, sem=sem) for expr, sem in by_expr.items()]
+
+
+def request_session(c, o):
+    if "harness_exception" in o or "error" in o or any("fit" not in fo or "error" in fo["fit"] for fo in o.get("fits", [{}])):
+        return dict(op="noop")
+    columns = [k for k in list(c["num"]) + list(c["cat"]) if k != c.get("dropcol")]
+    allcols = list(c["num"]) + list(c["cat"])
+    pool = []
+    for i in range(c["n"]):
+        row = [c["num"][k][i] for k in c["num"]]
+        for k, ci in c["cat"].items():
+            row.append(cell_json(ci["levels"][ci["codes"][i]]))
+        pool.append(row)
+    roots = sorted({r for fo in o["fits"] for r in fo.get("roots", [])})
+    declared = [[k, [lab(x) for x in ci["levels"]]] for k, ci in c["cat"].items() if ci["declared"]]
+    common_ = dict(norm=[list(p) for p in o.get("norm", [])], elem=o.get("elem", []), roots=roots)
+    fits = []
+    for fit, fo in zip(c["fits"], o["fits"]):
+        fits.append(dict(terms=[[f["x"] for f in t] for t in fo["terms"]], efr=fit["efr"], output=fit["output"],
+                         cluster=fit["cluster"], train=fit["train"], factors=_env_json(c, o, fo), **common_))
+    # the semantics used during the history: a replay reads recorded state only (no quantile routine); formulas of this
+    # stream contain no cr/cc (whose replay would need F / Q2 per recorded knot vector)
+    merged = {}
+    for ft in fits:
+        for fj in ft["factors"]:
+            merged.setdefault(fj["expr"], fj)
+    return dict(op="session", columns=allcols, present=columns, pool=pool, declared=declared, fits=fits,
+                factors=list(merged.values()), rows=c["rows"], calls=c["calls"], **common_)
+
+
+def _fu_json(c, o, k, fu):
+    d = dict(rows=fu["rows"], pickle=fu["route"] in GETSTATE_ROUTES)
+    if fu.get("output"):
+        d["output"] = fu["output"]
+    if fu.get("drop"):
+        d["drop"] = fu["drop"]
+    if fu.get("swap"):
+        d["swap"] = fu["swap"]
+    ed = (o.get("edits") or [None] * (k + 1))[k] if k < len(o.get("edits") or []) else None
+    if fu.get("edit") and ed is not None:
+        d["edit"] = dict(factor=o["exprs"][fu["edit"]["src"]], categories=ed)
+    elif fu.get("edit"):
+        d["edit_failed"] = True
+    return d
+
+
 def request(c, o):
+    if c["kind"] == "sparse":
+        return dict(op="sparse", tr=c["tr"], roots=o.get("roots", []), cols=c["cols"], followups=c["followups"])
+    if c["kind"] == "session":
+        return request_session(c, o)
     if c["kind"] == "dict":
         return dict(op="dict", tr=c["tr"], roots=o.get("roots", []),
                     cols=[[dict(t=str(k), s=isinstance(k, str)), colv] for k, colv in c["cols"]],
@@ -845,10 +1592,11 @@ def request(c, o):
     return dict(
         op="replay", columns=columns, pool=pool, train=c["train"],
         declared=[[k, [lab(x) for x in ci["levels"]]] for k, ci in c["cat"].items() if ci["declared"]],
-        followups=[dict(rows=fu["rows"], pickle=fu["route"].startswith("pickle")) for fu in c["followups"]],
+        followups=[_fu_json(c, o, k, fu) for k, fu in enumerate(c["followups"])],
         terms=[[f["x"] for f in t] for t in o["terms"]],
         factors=factors, norm=[list(p) for p in o.get("norm", [])], elem=o.get("elem", []), roots=o.get("roots", []),
         efr=c["efr"], output=c["output"], cluster=c["cluster"],
+        inst_keys=(o.get("pickle_keys") or {}).get("before", []),
     )
 
 
@@ -876,8 +1624,8 @@ def _cmp_matrix(io, mo, what):
     return None
 
 
-def _cmp_scale_state(a, b, what):
-    for k in ("ddof", "center", "scale"):
+def _cmp_scale_state(a, b, what, keys=("ddof", "center", "scale")):
+    for k in keys:
         u, v = a.get(k), b.get(k)
         if isinstance(u, str) or isinstance(v, str) and v == "absent":
             if u != v:
@@ -887,6 +1635,21 @@ def _cmp_scale_state(a, b, what):
             return f"{what}[{k}]: {u!r} vs model {v!r}"
         if u is not None and not close(float(u), fl(v)):
             return f"{what}[{k}]: {u!r} vs model {fl(v)!r}"
+    return None
+
+
+def _cmp_arr_state(fields, states, what):
+    """numpy's arrays of statistics (or 0-d / None / absent, which apply to every column) against the model's
+    one state per column"""
+    for k in ("ddof", "center", "scale"):
+        u = fields.get(k)
+        if isinstance(u, list) and len(u) != len(states):
+            return f"{what}[{k}]: {len(u)} recorded entries vs model {len(states)} columns"
+        for j, stj in enumerate(states):
+            uj = u[j] if isinstance(u, list) else u
+            w = _cmp_scale_state({k: uj}, {k: stj.get(k)}, f"{what}[column {j}]", keys=(k,))
+            if w:
+                return w
     return None
 
 
@@ -911,6 +1674,13 @@ def _cmp_spec(isp, msp, what):
         b = mt[k]
         if a["kind"] == "empty":
             continue  # a transform that records nothing (poly raw): `{}`
+        if b["kind"] == "arr" and a["kind"] in ("arr", "scale"):
+            # a 2-D argument: numpy records arrays (or 0-d values that apply to every column)
+            fields = a["fields"] if a["kind"] == "arr" else a["state"]
+            w = _cmp_arr_state(fields, b["states"], f"{what}: state[{k}]")
+            if w:
+                return w
+            continue
         if a["kind"] != b["kind"]:
             return f"{what}: state of {k} is {a['kind']} vs model {b['kind']}"
         if a["kind"] == "scale":
@@ -984,9 +1754,89 @@ def agree_dict(c, o, m):
     return None
 
 
+def agree_session(c, o, m):
+    if "error" in o or "fits" not in o:
+        return None
+    if any("fit" not in fo or "error" in fo.get("fit", {}) for fo in o["fits"]):
+        return None  # nothing fitted, nothing to replay
+    if "fits" not in m:
+        return "model returned no fits: " + str(m)[:200]
+    for j, (fo, mf) in enumerate(zip(o["fits"], m["fits"])):
+        if "error" in mf:
+            if _skip(mf["error"]):
+                return None
+            return f"fit {j}: implementation ok vs model {mf['error']}"
+        w = _cmp_matrix(fo["fit"], mf, f"fit {j}") or _cmp_spec(fo["fit"]["spec"], mf["spec"], f"fit {j}")
+        if w:
+            return w
+    if len(m["calls"]) != len(o["calls"]):
+        return f"model answered {len(m['calls'])} calls of {len(o['calls'])}"
+    for k, (cl, io, mo) in enumerate(zip(c["calls"], o["calls"], m["calls"])):
+        what = f"call {k} (spec {cl['spec']}{', warnings as errors' if cl['strict'] else ''}) of the history on one materializer"
+        if "error" in mo and _skip(mo["error"]):
+            continue
+        if "error" in io or "error" in mo:
+            if io.get("error") != mo.get("error"):
+                return f"{what}: implementation {io.get('error', 'ok')} ({io.get('msg', '')[:100]}) vs model {mo.get('error', 'ok')}"
+            continue
+        w = _cmp_matrix(io, mo, what) or _cmp_spec(o["fits"][cl["spec"]]["fit"]["spec"], mo["spec"], what + " spec afterwards")
+        if w:
+            return w
+    return None
+
+
+def _same_obs(a, b):
+    if ("error" in a) != ("error" in b):
+        return False
+    if "error" in a:
+        return a["error"] == b["error"]
+    if a["names"] != b["names"] or a["shape"] != b["shape"]:
+        return False
+    for r1, r2 in zip(a["rows"], b["rows"]):
+        for u, v in zip(r1, r2):
+            if (math.isfinite(u) != math.isfinite(v)) or (math.isfinite(u) and abs(u - v) > ORACLE_TOL * max(1.0, abs(u), abs(v))):
+                return False
+    return a.get("spec") == b.get("spec")
+
+
+def oracle_session(c, o):
+    if "error" in o or "calls" not in o:
+        return None
+    for k, (cl, h, f) in enumerate(zip(c["calls"], o["calls"], o["fresh"])):
+        if not _same_obs(h, f):
+            prev = [f"spec {p['spec']}: {'raised ' + q['error'] if 'error' in q else 'ok'}" for p, q in zip(c["calls"][:k], o["calls"][:k])]
+            return (f"call {k} (spec {cl['spec']}) on the reused materializer object gave "
+                    f"{'error ' + h['error'] if 'error' in h else 'a matrix'} but the same call on a new object gave "
+                    f"{'error ' + f['error'] if 'error' in f else 'a different matrix' if 'error' not in h else 'a matrix'}; "
+                    f"earlier calls on the object: {prev}; rows {c['rows']}")
+    if not all(o.get("state_unchanged", [True])):
+        return "the recorded state of a spec changed during the history of calls"
+    return None
+
+
 def agree(c, o, m):
     if "driver_error" in m:
         return "driver: " + m["driver_error"][:300]
+    if c["kind"] == "session":
+        if "harness_exception" in o:
+            return None
+        return agree_session(c, o, m)
+    if c["kind"] == "sparse":
+        if "harness_exception" in o:
+            return None
+        for what, io, mo in [("fit", o["fit"], m.get("fit", {}))] + [(f"follow-up {i}", a, b) for i, (a, b) in enumerate(zip(o["replays"], m.get("replays", [])))]:
+            if "error" in mo and _skip(mo["error"]):
+                continue
+            if "res" in io and any(not math.isfinite(v) for v in io["res"]):
+                continue  # zero variance: nan
+            if "error" in io or "error" in mo:
+                if io.get("error") != mo.get("error"):
+                    return f"sparse {what}: implementation {io.get('error', 'ok')} ({io.get('msg', '')}) vs model {mo.get('error', 'ok')}"
+                continue
+            w = _cmp_list(io["res"], mo["res"], f"sparse {what}") or _cmp_scale_state(io["state"], mo["state"], f"sparse {what}: state")
+            if w:
+                return w
+        return None
     if "harness_exception" in o or "error" in o:
         return None  # reported by the oracle
     if c["kind"] == "dict":
@@ -1008,14 +1858,22 @@ def agree(c, o, m):
     if mf["spec"]["column_names"] != [n for s in of["spec"]["structure"] for n in s["columns"]]:
         return "fit: model column_names differ from the implementation's structure"
     for i, (fu, io, mo) in enumerate(zip(c["followups"], o["replays"], m["replays"])):
-        what = f"follow-up {i} ({fu['route']}, rows {fu['rows']})"
+        opts = {k: fu[k] for k in ("output", "drop", "swap", "edit") if fu.get(k)}
+        what = f"follow-up {i} ({fu['route']}, rows {fu['rows']}{', ' + str(opts) if opts else ''})"
         if "error" in mo and _skip(mo["error"]):
             continue
+        if fu.get("edit") and (o.get("edits") or [None] * (i + 1))[i] is None:
+            continue  # the edit itself could not be applied (the route raised first)
         if "error" in io or "error" in mo:
             if io.get("error") != mo.get("error"):
+                # several factors may read a missing / wrong-kind column; which of them is evaluated first (a set of
+                # factors, iterated in hash order; the model follows formula order) decides between these two classes
+                both = {io.get("error"), mo.get("error")}
+                if (fu.get("swap") or fu.get("drop")) and both <= {"FactorEvaluationError", "FactorEncodingError"}:
+                    continue
                 return f"{what}: implementation {io.get('error', 'ok')} ({io.get('msg', '')[:100]}) vs model {mo.get('error', 'ok')}"
             continue
-        w = _cmp_matrix(io, mo, what) or _cmp_spec(of["spec"], mo["spec"], what + " spec afterwards")
+        w = _cmp_matrix(io, mo, what) or (None if fu.get("edit") else _cmp_spec(of["spec"], mo["spec"], what + " spec afterwards"))
         if w:
             return w
     # pickling: the model's notion of surviving keys against the real instance dictionaries
@@ -1025,6 +1883,13 @@ def agree(c, o, m):
             return f"pickle: restored __dict__ keys {pk['after']} differ from the dataclass fields {pk['fields']}"
         if sorted(m.get("field_names", pk["fields"])) != pk["fields"]:
             return f"pickle: model field names {m.get('field_names')} vs dataclass fields {pk['fields']}"
+        # the model's __getstate__ on the LIVE instance dictionary (its keys in order, cached properties included)
+        if "getstate_keys" in m:
+            if m["getstate_keys"] != pk["getstate"]:
+                return f"__getstate__ keeps {pk['getstate']} of {pk['before']}, the model keeps {m['getstate_keys']}"
+            for how in ("after", "after_copy", "after_deepcopy"):
+                if sorted(m["getstate_keys"]) != pk[how]:
+                    return f"pickle/copy: instance keys {how} = {pk[how]} vs model {sorted(m['getstate_keys'])}"
     return None
 
 
@@ -1083,6 +1948,21 @@ def oracle(c, o):
         return "harness could not run the implementation: " + o["harness_exception"]
     if c["kind"] == "dict":
         return oracle_dict(c, o)
+    if c["kind"] == "session":
+        return oracle_session(c, o)
+    if c["kind"] == "sparse":
+        # one column: every follow-up row equals the fitted row; the recorded state does not change
+        fit = o["fit"]
+        if "error" in fit or any(not math.isfinite(v) for v in fit["res"]):
+            return None
+        for i, (rows, rp) in enumerate(zip(c["followups"], o["replays"])):
+            if "error" in rp:
+                return f"sparse follow-up {i} on rows {rows} raised {rp['error']} after a successful fit"
+            if not _rows_close(rp["res"], [fit["res"][r] for r in rows]):
+                return f"sparse follow-up {i} on rows {rows}: {rp['res']}, the fitted rows are {[fit['res'][r] for r in rows]}"
+            if rp["state"] != fit["state"]:
+                return f"sparse follow-up {i}: the recorded state changed"
+        return None
     if "error" in o:
         return None  # an atom the parser rejects: not a case
     fit = o["fit"]
@@ -1116,6 +1996,8 @@ def oracle(c, o):
         else:
             expected[i] = r["row"]
     for k, (fu, rp) in enumerate(zip(c["followups"], o["replays"])):
+        if not in_domain(fu):
+            continue  # outside the property (checked against the model only)
         what = f"follow-up {k} via {fu['route']} on pool rows {fu['rows']}"
         blocked = [i for i in fu["rows"] if "error" in ref[i]]
         if "error" in rp:
@@ -1133,7 +2015,7 @@ def oracle(c, o):
                 src = "its row in the fitted matrix" if i in train else "the output of its one-row frame"
                 return (f"{what}: output row {j} (pool row {i}) is {rp['rows'][j]} but {src} is {expected[i]}"
                         + (" [replay of the training data does not reproduce the matrix]" if fu["rows"] == train else ""))
-        if not rp.get("spec_same", True):
+        if not rp.get("spec_same", True) and not fu.get("output"):
             return f"{what}: the spec attached to the result differs from the fitted spec"
     if not o.get("state_unchanged", True):
         return "the recorded state of the spec changed during the follow-ups"
@@ -1150,17 +2032,23 @@ def classify(c, o, why):
 LEVEL_TEXT = (
     "Proof: Lean theorems (Props/C04.lean) about the executable model of the state-first protocol of stateful "
     "transforms (center/scale/standardize, poly, bs, cr/cc, categorical encoding with recorded levels; the laws are "
-    "derived from the C13/C12/C11 models), the decorator's nested state for dict-valued data, stateful_eval's keying "
-    "of state by normalised call text, and of get_model_matrix on a ModelSpec (factor evaluation, the spec.structure "
-    "branch of _build_model_matrix with rehydration and _enforce_structure on top of C02's column model): for ALL "
-    "formulas over these transforms, all frames and all index lists, a replay of any selection of rows is the same "
-    "selection of the replay's rows (so each row depends on its input row and the recorded state only), column names "
-    "are the recorded ones, a replay on the training frame reproduces the fitted matrix and leaves the spec unchanged "
-    "(so any sequence of follow-ups behaves like independent replays), and __getstate__ keeps exactly the dataclass "
-    "fields, on which alone a replay depends. The model is tied to the code by a differential correspondence on every run."
+    "derived from the C13/C12/C11 models), the decorator's wrapper on every kind of argument (vector; dict-valued data "
+    "with nested per-key state; 2-D arrays with one recorded state per column; scipy.sparse columns), stateful_eval's "
+    "keying of state by normalised call text, get_model_matrix on a ModelSpec (factor evaluation, the spec.structure "
+    "branch of _build_model_matrix with rehydration and _enforce_structure on top of C02's column model) and the "
+    "materializer OBJECT with its factor cache: for ALL formulas over these transforms (nested ones included), all "
+    "frames and all index lists, a replay of any selection of rows is the same selection of the replay's rows (so each "
+    "row depends on its input row and the recorded state only), column names are the recorded ones, a replay on the "
+    "training frame reproduces the fitted matrix and leaves the spec unchanged (so any sequence of follow-ups behaves "
+    "like independent replays), every call of any history on one materializer object — failed calls included — is the "
+    "pure function of its own spec, and __getstate__ keeps exactly the dataclass fields, on which alone a replay "
+    "depends. Which transform with which arguments a call denotes is computed by the model from the call as written, "
+    "by Python's argument binding against the live signatures (Gen/StatefulTable.lean, regenerated every run). The "
+    "model is tied to the code by a differential correspondence on every run."
 )
 LEVEL_NOTE = (
-    "Partial: the pickle byte stream / wrapt proxies are exercised (real pickle round trips in the correspondence), not "
-    "modelled; numpy routines enter as deterministic parameters; float rounding not modelled (1e-9); missing values and "
-    "`lag` are outside (C06 / excluded)."
+    "Partial: the pickle byte stream / wrapt proxies are exercised (real pickle/copy round trips in the correspondence), "
+    "not modelled; numpy routines enter as deterministic parameters; float rounding not modelled (1e-9); missing values "
+    "and `lag` are outside (C06 / excluded); bs/cr/poly of a multi-column argument and back-quoted names in stateful "
+    "calls are outside the model; row labels are not modelled (comparison by position)."
 )
